@@ -1,6 +1,6 @@
 (* NumRun.v — the numeric specification instantiated with exact rationals (stdlib Qc with the
    MathComp structures of Base/QcField.v) for the correspondence checks of C01-C07, C12-C14. *)
-From Coq Require Import ZArith QArith Qcanon NArith.
+From Coq Require Import ZArith QArith Qcanon NArith Qround.
 From mathcomp Require Import all_ssreflect all_algebra.
 From VP Require Import Base.QcField Base.SeqMx Model.Numeric.
 
@@ -21,3 +21,15 @@ Definition num_bestfit (cu2 floor2 : F) (n m : nat) (Phi C BF : smx F) : N :=
 Definition show_q (x : F) : Z * positive := (Qnum (this x), Qden (this x)).
 Definition show_coeffs n m w Phi Y : option (seq (seq (Z * positive))) :=
   if spec_coeffs n m w Phi Y is Some C then Some [seq [seq show_q x | x <- c] | c <- C] else None.
+
+(* diagnostics for replay files: floor(2^k * x) *)
+Definition scaled (k : N) (x : F) : Z := Qfloor (this (x * qmk (2 ^ Z.of_N k) 1)%R).
+Definition dbg_cov (cu2 floor2 k2max : F) (n m p : nat) (w : option (seq F)) (Phi : smx F)
+           (Ds : seq (smx F)) (y c : seq F) (o : stats_obs F) : seq Z :=
+  let q := (m + p)%N in
+  let H := wscale w (mfj n Phi Ds c) in
+  let G := sgram n H in
+  let cov := sb_cov o in
+  let r := sfro2 (ssub (smul q G cov) (sscale (sb_chi2 o) (sident F q))) in
+  let d := (sfro2 G * sfro2 cov)%R in
+  [:: scaled 120 (r / d)%R; scaled 120 (cu2 * (n * q)%N%:R)%R; scaled 20 (d / (sb_chi2 o * sb_chi2 o))%R ].
